@@ -1,8 +1,9 @@
 /-
 Tie by translation (C05): the definitions of NeoModel.Generated.GoFuncs are re-translated from /repo's Go source on
 every check run (harness/cmd/extract/gofuncs.go, gofuncs_c05.go); the theorems below prove, for all arguments, that
-the translated guards of NEO.setRegisterPrice, NEO.SetGASPerBlock and ProtocolConfiguration.ShouldUpdateCommitteeAt
-are the guards the hand-written token model uses. A change of the Go function changes the generated definition
+the translated NEO.setRegisterPrice, NEO.SetGASPerBlock, ProtocolConfiguration.ShouldUpdateCommitteeAt,
+NEO.distributeGas, NEO.dropCandidateIfZero, NEO.calculateBonus and nep17TokenNative.transferDeferrable make the decisions
+the hand-written token model makes. A change of the Go function changes the generated definition
 and these proofs stop checking.
 -/
 import NeoModel.Generated.GoFuncs
@@ -135,7 +136,65 @@ theorem neoCalculateBonus_branch (end_ r key reward tmp : Int) (err noVote : Boo
   unfold GoFuncs.neoCalculateBonus
   cases err <;> cases noVote <;> simp
 
--- non-vacuity
+/-- how `transfer` ends: a panic, `false` pushed, or the Transfer notification (postTransfer). -/
+def tpreOutcome : TPre → Option (List String)
+  | .thr => none
+  | .ret _ _ => some ["popArgsPushRes"]
+  | .posted _ _ _ => some ["c.postTransfer"]
+
+/-- nep17TokenNative.transferDeferrable (native_nep17.go:134-176), translated with its calls as effects: for every
+token, ledger, accounts and amount it ends the way the model's `transferPre` ends, with the checks in the same order —
+negative amount panics first; then the witness (skipped exactly when the calling contract is `from`); then the debit
+of `from` (amount 0 for a self- or zero-transfer), whose failure returns false; then, unless the transfer is empty,
+the credit of `to`, whose failure returns false; then postTransfer.  Identifications: the witness bit of the model
+is "the caller is `from`, or CheckHashedWitness succeeds"; the two `updateAccBalance` error leaves are the model's `upd`
+results on the ledger before / after the debit. -/
+theorem nep17Transfer_eq (t : Tok) (e : Env) (l : Ledger) (src dst : Nat) (amt : Int) (callerZero fromEqCaller witOk : Bool)
+    (data callerHash zero neg d1 d2 : Int) :
+    GoFuncs.nep17Transfer (src : Int) (dst : Int) amt data (sgn amt) callerHash callerZero fromEqCaller witOk false
+        (decide (src = dst)) zero d1
+        (!(upd t e l src (if src = dst ∨ amt = 0 then 0 else -amt) (some amt)).2.1) d2
+        (!(upd t e (upd t e l src (if src = dst ∨ amt = 0 then 0 else -amt) (some amt)).1 dst amt none).2.1) neg
+      = tpreOutcome (transferPre t e l src dst amt ((!(callerZero || !fromEqCaller)) || witOk)) := by
+  unfold GoFuncs.nep17Transfer transferPre sgn
+  by_cases hneg : amt < 0
+  · simp [hneg, tpreOutcome]
+  · simp only [if_neg hneg]
+    have hs : ¬ (if amt = 0 then (0 : Int) else 1) = -1 := by split <;> omega
+    have hz : ((if amt = 0 then (0 : Int) else 1) = 0) ↔ amt = 0 := by
+      constructor
+      · intro h; by_cases h0 : amt = 0
+        · exact h0
+        · rw [if_neg h0] at h; omega
+      · intro h; rw [if_pos h]
+    simp only [hs, if_false]
+    cases hu : upd t e l src (if src = dst ∨ amt = 0 then 0 else -amt) (some amt) with
+    | mk l1 r1 =>
+      obtain ⟨b1, x1⟩ := r1
+      cases hu2 : upd t e l1 dst amt none with
+      | mk l2 r2 =>
+        obtain ⟨b2, x2⟩ := r2
+        by_cases he : src = dst ∨ amt = 0
+        · have he' : (decide (src = dst) = true ∨ (if amt = 0 then (0 : Int) else 1) = 0) := by
+            rcases he with h | h
+            · exact Or.inl (by simp [h])
+            · exact Or.inr (hz.mpr h)
+          cases callerZero <;> cases fromEqCaller <;> cases witOk <;> cases b1 <;>
+            simp [he, he', tpreOutcome, hu]
+        · have he' : ¬ (decide (src = dst) = true ∨ (if amt = 0 then (0 : Int) else 1) = 0) := by
+            intro h; apply he
+            rcases h with h | h
+            · exact Or.inl (by simpa using h)
+            · exact Or.inr (hz.mp h)
+          cases callerZero <;> cases fromEqCaller <;> cases witOk <;> cases b1 <;> cases b2 <;>
+            simp [he, he', tpreOutcome, hu, hu2]
+
+-- non-vacuity: negative amount panics; no witness: false; debit fails: false; empty transfer skips the credit
+example : GoFuncs.nep17Transfer 1 2 (-5) 0 (-1) 0 true false true false false 0 0 false 0 false 0 = none ∧
+    GoFuncs.nep17Transfer 1 2 5 0 1 0 true false false false false 0 0 false 0 false 0 = some ["popArgsPushRes"] ∧
+    GoFuncs.nep17Transfer 1 2 5 0 1 0 true false true false false 0 0 true 0 false 0 = some ["popArgsPushRes"] ∧
+    GoFuncs.nep17Transfer 1 1 5 0 1 0 true false true false true 0 0 false 0 true 0 = some ["c.postTransfer"] ∧
+    GoFuncs.nep17Transfer 1 2 5 0 1 7 false true false false false 0 0 false 0 false 0 = some ["c.postTransfer"] := by decide
 example : GoFuncs.neoDistributeGas 3 7 false 5 11 false true 9 = (11, "ok", 5, 9) ∧
     GoFuncs.neoDistributeGas 5 7 false 5 11 false true 9 = (0, "ok", 5, 7) ∧
     GoFuncs.neoDistributeGas 3 7 false 5 11 false false 9 = (11, "ok", 5, 7) := by decide
